@@ -3,6 +3,8 @@ use crate::operator::{AggregateFunction, Data, EvalError, Evaluate, Expr};
 
 pub struct Max {
     max: f64,
+    /// the maximum of the integer values, kept exactly: not every i64 is a double
+    max_int: Option<i64>,
     column: Expr,
 }
 
@@ -10,6 +12,7 @@ impl Max {
     pub fn empty<T: Into<Expr>>(column: T) -> Max {
         Max {
             max: std::f64::NEG_INFINITY,
+            max_int: None,
             column: column.into(),
         }
     }
@@ -18,17 +21,43 @@ impl Max {
 impl AggregateFunction for Max {
     fn process(&mut self, data: &Data) -> Result<(), EvalError> {
         let value: f64 = self.column.eval(data)?;
-        if value > self.max {
-            self.max = value;
+        let exact = match self.column.eval_value(data)?.as_ref() {
+            data::Value::Int(i) => Some(*i),
+            data::Value::Str(s) => match data::Value::from_string(s.as_str()) {
+                data::Value::Int(i) => Some(i),
+                _ => None,
+            },
+            _ => None,
+        };
+        match exact {
+            Some(i) => {
+                if self.max_int.map_or(true, |seen| i > seen) {
+                    self.max_int = Some(i);
+                }
+            }
+            None => {
+                if value > self.max {
+                    self.max = value;
+                }
+            }
         }
         Ok(())
     }
 
     fn emit(&self) -> data::Value {
-        if self.max.is_finite() {
-            data::Value::from_float(self.max)
+        if self.max == std::f64::INFINITY {
+            // as before: an infinite maximum is not reported
+            return data::Value::None;
+        }
+        let of_floats = if self.max.is_finite() {
+            Some(data::Value::from_float(self.max))
         } else {
-            data::Value::None
+            None
+        };
+        match (self.max_int.map(data::Value::Int), of_floats) {
+            (Some(i), Some(f)) => i.max(f),
+            (Some(v), None) | (None, Some(v)) => v,
+            (None, None) => data::Value::None,
         }
     }
 
